@@ -998,6 +998,8 @@ def _code_to_slice__arglikes(
 
             if fst_.is_parenthesized_tuple() is False:
                 fst_._delimit_node()
+            elif codea_cls in (Yield, YieldFrom) and not fst_.pars().n:  # these need to be parenthesized definitely
+                fst_._parenthesize_grouping()
 
         else:  # is AST, make FST
             fst_ = code_as_expr(code, options, self.root._parse_params)
@@ -1137,6 +1139,8 @@ def _code_to_slice__withitems(
 
             if fst_.is_parenthesized_tuple() is False:
                 fst_._delimit_node()
+            elif codea_cls in (Yield, YieldFrom, NamedExpr) and not fst_.pars().n:  # these need to be parenthesized definitely
+                fst_._parenthesize_grouping()
 
         else:  # is AST, make FST
             fst_ = code_as_expr(code, options, self.root._parse_params)
@@ -1312,6 +1316,9 @@ def _code_to_slice__expr_arglikes(
         if codea is not code:  # is FST
             fst_ = code
             ast_ = codea
+
+            if codea_cls in (Yield, YieldFrom) and not fst_.pars().n:  # these need to be parenthesized definitely
+                fst_._parenthesize_grouping()
 
         else:  # is AST, make FST
             fst_ = code_as_expr(code, options, self.root._parse_params)
